@@ -5,7 +5,7 @@
    without '\n'; the reader follows ANY schedule [sch] of read sizes. *)
 From Coq Require Import ZArith List Bool.
 From RM Require Import Base.Word C08.Model C11.Model C09.Model C09.Grammar C09.Driver C09.Proofs C09.ProofsBytes C09.ProofsFinish C09.ProofsFinal C09.ProofsTrace C09.Circular C09.ProofsCircular C09.ProofsLines C09.ProofsTable.
-From RM Require C09.Pins C09.PinsMem C08.Proofs C09.PinsNum Gen.C09Numeric C09.ProofsText C09.ProofsRecord C09.ProofsRecord2.
+From RM Require C09.Pins C09.PinsMem C08.Proofs C09.PinsNum Gen.C09Numeric C09.ProofsText C09.ProofsRecord C09.ProofsRecord2 C09.ProofsRecord3.
 Import ListNotations.
 Open Scope Z_scope.
 
@@ -655,3 +655,30 @@ Example c09_nonvacuous_line_record :
    sub_line_data (to_rle [49; 48; 48; 48; 32; 49; 48; 32; 55; 32; 49; 233]))
   = (Some (mk_line 4096 16 1 7), None, None).
 Proof. split; [rewrite PinsNum.expand_to_rle; exact ProofsRecord2.line_rec_example|vm_compute; reflexivity]. Qed.
+
+(* PUBLIC and FUNC records (with the optional `m` marker) as declarative grammars over BYTES, both directions. *)
+Theorem c09_public_func_record_grammar :
+  forall s : rle,
+    (forall it, p_public s = POk it ->
+        exists a ps n name, it = IPublic (mk_pubs a n ps) /\ ProofsRecord3.public_line (PinsNum.expand s) a ps name /\
+                            PinsNum.expand n = name) /\
+    (forall a ps name, ProofsRecord3.public_line (PinsNum.expand s) a ps name ->
+        exists n, p_public s = POk (IPublic (mk_pubs a n ps)) /\ PinsNum.expand n = name) /\
+    (forall it, p_func s = POk it ->
+        exists a sz ps n name, it = IFunc (mk_fr a sz ps n [] []) /\ ProofsRecord3.func_line (PinsNum.expand s) a sz ps name /\
+                               PinsNum.expand n = name) /\
+    (forall a sz ps name, ProofsRecord3.func_line (PinsNum.expand s) a sz ps name ->
+        exists n, p_func s = POk (IFunc (mk_fr a sz ps n [] [])) /\ PinsNum.expand n = name).
+Proof.
+  intros s. split; [apply ProofsRecord3.public_sound|]. split; [apply ProofsRecord3.public_complete|].
+  split; [apply ProofsRecord3.func_sound|apply ProofsRecord3.func_complete].
+Qed.
+Print Assumptions c09_public_func_record_grammar.
+
+(* non-vacuity: "FUNC m 1000 10 4 f" has the shape; a ninth digit in the size field, or `m` not followed by a space, breaks it *)
+Example c09_nonvacuous_func_record :
+  ProofsRecord3.func_line (PinsNum.expand (to_rle [70; 85; 78; 67; 32; 109; 32; 49; 48; 48; 48; 32; 49; 48; 32; 52; 32; 102])) 4096 16 4 [102] /\
+  (p_func (to_rle [70; 85; 78; 67; 32; 49; 48; 48; 48; 32; 49; 50; 51; 52; 53; 54; 55; 56; 57; 32; 52; 32; 102]),
+   p_func (to_rle [70; 85; 78; 67; 32; 109; 49; 48; 48; 48; 32; 49; 48; 32; 52; 32; 102]))
+  = (PFail, PFail).
+Proof. split; [exact ProofsRecord3.func_line_example|vm_compute; reflexivity]. Qed.
